@@ -31,27 +31,27 @@ CHECK = {
          "cases": {"quick": 900, "thorough": 17940},
          "params": {"mode": "exh"}, "env": {"ASAN_OPTIONS": _ASAN}, "case_timeout": 300},
         {"name": "collider", "variant": "asan", "harness": "c14_spatial.cpp",
-         "cases": {"quick": 2000, "thorough": 12000},
+         "cases": {"quick": 2000, "thorough": 5000},
          "params": {"mode": "collider", "maxLeaves": {"quick": 3000, "thorough": 100000},
-                    "pairBudget": {"quick": 150000, "thorough": 400000}},
+                    "pairBudget": {"quick": 150000, "thorough": 300000}},
          "env": {"ASAN_OPTIONS": _ASAN}, "case_timeout": 300},
         {"name": "bvh2d", "variant": "asan", "harness": "c14_spatial.cpp",
-         "cases": {"quick": 700, "thorough": 6000},
+         "cases": {"quick": 700, "thorough": 3000},
          "params": {"mode": "bvh2d", "maxBoxes": {"quick": 2500, "thorough": 12000}},
          "env": {"ASAN_OPTIONS": _ASAN}, "case_timeout": 300},
         {"name": "tree2d", "variant": "asan", "harness": "c14_spatial.cpp",
-         "cases": {"quick": 3000, "thorough": 40000},
+         "cases": {"quick": 3000, "thorough": 20000},
          "params": {"mode": "tree2d", "maxPoints": {"quick": 3000, "thorough": 30000}},
          "env": {"ASAN_OPTIONS": _ASAN}, "case_timeout": 300},
         # real-TBB build: crosses the parallel thresholds (radix tree > 1e4 internal nodes, BuildInternalBoxes > 1e3,
         # Collisions / BVHCollisions > 512 queries, CollectIntersectionPairs' PairsRecorder path)
         {"name": "par-collider", "variant": "tbb", "harness": "c14_spatial.cpp",
-         "cases": {"quick": 16, "thorough": 48},
+         "cases": {"quick": 16, "thorough": 32},
          "params": {"mode": "collider", "par": 1, "minLeaves": 10500, "maxLeaves": {"quick": 20000, "thorough": 40000},
                     "pairBudget": 1000000},
          "max_workers": 4, "case_timeout": 600},
         {"name": "par-bvh2d", "variant": "tbb", "harness": "c14_spatial.cpp",
-         "cases": {"quick": 16, "thorough": 48},
+         "cases": {"quick": 16, "thorough": 32},
          "params": {"mode": "bvh2d", "par": 1, "maxBoxes": {"quick": 14000, "thorough": 30000}},
          "max_workers": 4, "case_timeout": 600},
     ],
